@@ -257,7 +257,26 @@ let s_phyenc g obs =
 let s_hist judge g obs = Hist.run_history g obs judge
 let no_judge _ _ = "ok"
 
+(* ---- C20: event router ---- *)
+let s_router g obs =
+  let ops = List.map (fun o ->
+      match o.[0] with
+      | 'S' -> RSub (n_of_int (int_of_string (String.sub o 1 (String.length o - 1))))
+      | 'U' -> RUnsub (n_of_int (int_of_string (String.sub o 1 (String.length o - 1))))
+      | _ -> (match String.split_on_char ':' (String.sub o 1 (String.length o - 1)) with
+          | [i; e] -> RPub (n_of_int (int_of_string i), n_of_int (int_of_string e)) | _ -> failwith "op"))
+      (if g "ops" = "" then [] else String.split_on_char ',' (g "ops")) in
+  let r = rrun ops in
+  let show q closed = String.concat "," (List.map (fun x -> string_of_int (int_of_n x)) q) ^ "/" ^ (if closed then "1" else "0") in
+  let model = String.concat ";" (List.map (fun ch -> show ch.rc_q ch.rc_closed) r.r_chans) in
+  let nch = List.length r.r_chans in
+  let spec = String.concat ";" (List.init nch (fun c -> show (expected ops N0 None (n_of_int c)) (expected_closed ops N0 false false (n_of_int c)))) in
+  (model, if obs = spec then "ok" else "bad:subscriber-did-not-get-exactly-its-events-in-order")
+let s_routerconc _g obs = ("ok", if obs = "ok" then "ok" else "bad:concurrent-unsubscribe-" ^ (List.hd (String.split_on_char ':' obs)))
+
 let register_all register =
+  register "router" s_router;
+  register "routerconc" s_routerconc;
   List.iter (fun n -> register ("gw" ^ n) Gwsuite.s_gw) ["C11"; "C15"; "C16"; "C17"];
   register "histC01" (s_hist Judge.judge_c01);
   register "histC03" (s_hist Judge.judge_c03);
